@@ -14,6 +14,13 @@ func (l *Local) Readdir(offset uint64, count uint32) (p9.Dirents, error) {
 		cursor = uint64(0)
 	)
 
+	// offset is the Offset of the last entry the caller has seen, i.e. a
+	// position counted from the start of the listing: start over, so that
+	// cursor really is that position whatever was read from l.file before.
+	if _, err := l.file.Seek(0, io.SeekStart); err != nil {
+		return nil, err
+	}
+
 	for len(p9Ents) < int(count) {
 		singleEnt, err := l.file.Readdirnames(1)
 
@@ -26,8 +33,8 @@ func (l *Local) Readdir(offset uint64, count uint32) (p9.Dirents, error) {
 		// we consumed an entry
 		cursor++
 
-		// cursor \in (offset, offset+count)
-		if cursor < offset || cursor > offset+uint64(count) {
+		// Entries up to and including offset were returned before.
+		if cursor <= offset {
 			continue
 		}
 
